@@ -283,3 +283,22 @@ M("C04", "accumulator rebound", "xeofs/multi/cca.py", "            view_preproce
 M("C04", "accumulator rebound in list processor", "xeofs/preprocessing/list_processor.py", "            X_transformed.append(proc.transform(x))  #  type: ignore", "            X_transformed = proc.transform(x)  #  type: ignore", "ACC")
 B("C04", "pseudo norms local renamed", ER, "        pseudo_norms = self.data[\"norms\"]", "        pn = self.data[\"norms\"]\n        pseudo_norms = pn")
 B("C04", "scaling inlined", CRT, "            projections1 = xr.dot(X, comps1) / scaling", "            unrot = xr.dot(X, comps1)\n            projections1 = unrot / scaling")
+
+# ---------------------------------------------------------------- C14
+LP = "xeofs/preprocessing/list_processor.py"
+M("C14", "transformers appended without reset", LP, "        # Start from an empty list so that refitting does not keep transformers of a previous fit\n        self.transformers = []\n", "", "HIST.grow")
+M("C14", "concatenator n_features accumulates", "xeofs/preprocessing/concatenator.py", "        self.n_features = [coord.size for coord in self.coords_in.values()]", "        self.n_features += [coord.size for coord in self.coords_in.values()]", "HIST")
+M("C14", "sorted reset removed from rotator", ER, "        self.feature_name = model.feature_name\n        self.sorted = False\n", "        self.feature_name = model.feature_name\n", "HIST.rbw")
+M("C14", "POP sorted reset removed", PP, "        # A new fit yields unsorted modes\n        self.sorted = False\n", "", "HIST.rbw")
+M("C14", "PCA overwrites n_modes", PC, "            n_modes = self._get_n_modes(X)\n\n            svd = SVD(\n                n_modes=n_modes,", "            self.n_modes = self._get_n_modes(X)\n\n            svd = SVD(\n                n_modes=self.n_modes,", "HIST.rbw")
+M("C14", "rotator stores model array without copy", ER, 'self.model_data.add(model.data["norms"].copy(deep=False), "singular_values")', 'self.model_data.add(model.data["norms"], "singular_values")', "OWN.borrowed")
+M("C14", "rotator renames model array", ER, "        n_samples = model.data[\"input_data\"].coords[self.sample_name].size", "        model.data[\"norms\"].name = \"singular_values\"\n        n_samples = model.data[\"input_data\"].coords[self.sample_name].size", "OWN.borrowed.mutate")
+M("C14", "fit tags the user's input", BS, "        self.sample_dims = convert_to_dim_type(dim)\n\n        # Preprocess the data & transform to 2D", "        self.sample_dims = convert_to_dim_type(dim)\n        X.attrs[\"fitted\"] = True\n\n        # Preprocess the data & transform to 2D", "OWN.borrowed.mutate")
+M("C14", "default solver_kwargs mutated", DEC, "        self.solver_kwargs = solver_kwargs\n", "        solver_kwargs.setdefault(\"n_iter\", 4)\n        self.solver_kwargs = solver_kwargs\n", "OWN.default")
+M("C14", "shared solver_kwargs attribute mutated", DEC, "            solver_kwargs.setdefault(\"compute\", self.compute)", "            self.solver_kwargs.setdefault(\"compute\", self.compute)\n            solver_kwargs.setdefault(\"compute\", self.compute)", "OWN.default.attr")
+M("C14", "bootstrapper refits the model's preprocessor", "xeofs/validation/bootstrapper.py", "        input_data = model.data[\"input_data\"]\n", "        input_data = model.data[\"input_data\"]\n        self.preprocessor.fit(input_data, (sample_name,))\n", "OWN.refit")
+M("C14", "sanitizer transform overwrites fit coords", SA, "        X_valid_features = self._get_valid_features(X)\n        X_valid_samples", "        self.sample_coords = X.coords[self.sample_name]\n        X_valid_features = self._get_valid_features(X)\n        X_valid_samples", "HIST.isolate")
+M("C14", "multi CCA overwrites c", "xeofs/multi/cca.py", '        self.c_ = _process_parameter("c", self.c, 0, self.n_views_)', '        self.c = _process_parameter("c", self.c, 0, self.n_views_)\n        self.c_ = self.c', "HIST.rbw")
+B("C14", "reset via list()", LP, "        self.transformers = []\n", "        self.transformers = list()\n")
+B("C14", "copy via shallow copy method chain", ER, 'self.model_data.add(model.data["norms"].copy(deep=False), "singular_values")', 'svals_copy = model.data["norms"].copy(deep=False)\n        self.model_data.add(svals_copy, "singular_values")')
+B("C14", "pca_models appended after reset", "xeofs/multi/cca.py", "        self.pca_models = []\n", "        self.pca_models = list()\n")
